@@ -3,6 +3,9 @@ package main
 
 import (
 	"encoding/json"
+	"go/ast"
+	"go/parser"
+	"go/token"
 	"flag"
 	"fmt"
 	"os"
@@ -37,6 +40,7 @@ type HarnessSpec struct {
 	ForkIn  []string               `json:"fork_in"`
 	Havoc   []string               `json:"havoc"`
 	ForkAll []string               `json:"fork_all"`
+	NativeRedirect bool            `json:"native_redirect"`
 	Solver  []string               `json:"solver"`
 }
 
@@ -605,6 +609,15 @@ func TestVerifReplay(t *testing.T) {
 		repl[filepath.Join(repoDir, rel)] = p
 		return nil
 	})
+	for _, h := range loadProps().Harnesses {
+		if h.Fn == doc.Harness && h.NativeRedirect {
+			for path, content := range redirectOverlay(h.Redirect, repl) {
+				np := filepath.Join(tmp, fmt.Sprintf("redir_%d.go", len(repl)))
+				os.WriteFile(np, content, 0o644)
+				repl[path] = np
+			}
+		}
+	}
 	ovb, _ := json.Marshal(map[string]interface{}{"Replace": repl})
 	ovPath := filepath.Join(tmp, "overlay.json")
 	os.WriteFile(ovPath, ovb, 0o644)
@@ -793,4 +806,128 @@ func max1(n int) int {
 		return 1
 	}
 	return n
+}
+
+// redirectOverlay builds, for native replay, patched copies of the repository files that declare
+// the redirected functions: the original declaration is renamed <name>VerifReal and a forwarding
+// declaration with the same signature calls the harness stub (same package only). This makes the
+// native run use exactly the stubs the symbolic run used (they are part of the claim).
+func redirectOverlay(redirects map[string]string, existing map[string]string) map[string][]byte {
+	out := map[string][]byte{}
+	type target struct{ dir, recv, name, to string }
+	var ts []target
+	for from, to := range redirects {
+		from, to = expandName(from), expandName(to)
+		var t target
+		if strings.HasPrefix(from, "(*") {
+			i := strings.Index(from, ").")
+			full := from[2:i]
+			j := strings.LastIndex(full, ".")
+			t.dir, t.recv, t.name = strings.TrimPrefix(strings.TrimPrefix(full[:j], modPath), "/"), full[j+1:], from[i+2:]
+		} else {
+			j := strings.LastIndex(from, ".")
+			t.dir, t.name = strings.TrimPrefix(strings.TrimPrefix(from[:j], modPath), "/"), from[j+1:]
+		}
+		k := strings.LastIndex(to, ".")
+		toDir := strings.TrimPrefix(strings.TrimPrefix(to[:k], modPath), "/")
+		if toDir != t.dir {
+			continue // cross-package stub: the native run keeps the real function
+		}
+		t.to = to[k+1:]
+		ts = append(ts, t)
+	}
+	byDir := map[string][]target{}
+	for _, t := range ts {
+		byDir[t.dir] = append(byDir[t.dir], t)
+	}
+	for dir, list := range byDir {
+		files, _ := filepath.Glob(filepath.Join(repoDir, dir, "*.go"))
+		for _, f := range files {
+			if strings.HasSuffix(f, "_test.go") {
+				continue
+			}
+			src, err := os.ReadFile(f)
+			if err != nil {
+				continue
+			}
+			fset := token.NewFileSet()
+			af, err := parser.ParseFile(fset, f, src, parser.ParseComments)
+			if err != nil {
+				continue
+			}
+			type edit struct {
+				pos  int
+				text string
+			}
+			var edits []edit
+			var extra strings.Builder
+			for _, d := range af.Decls {
+				fd, ok := d.(*ast.FuncDecl)
+				if !ok || fd.Body == nil {
+					continue
+				}
+				for _, t := range list {
+					if fd.Name.Name != t.name {
+						continue
+					}
+					recvName := ""
+					if t.recv != "" {
+						if fd.Recv == nil || len(fd.Recv.List) != 1 {
+							continue
+						}
+						se, ok := fd.Recv.List[0].Type.(*ast.StarExpr)
+						if !ok {
+							continue
+						}
+						id, ok := se.X.(*ast.Ident)
+						if !ok || id.Name != t.recv {
+							continue
+						}
+						if len(fd.Recv.List[0].Names) == 1 {
+							recvName = fd.Recv.List[0].Names[0].Name
+						}
+					} else if fd.Recv != nil {
+						continue
+					}
+					// rename the original
+					edits = append(edits, edit{fset.Position(fd.Name.End()).Offset, "VerifReal"})
+					// forwarding declaration: signature text up to the body
+					sig := string(src[fset.Position(fd.Pos()).Offset:fset.Position(fd.Body.Lbrace).Offset])
+					var args []string
+					if recvName != "" {
+						args = append(args, recvName)
+					}
+					variadicLast := false
+					for i, p := range fd.Type.Params.List {
+						for _, n := range p.Names {
+							args = append(args, n.Name)
+						}
+						if _, ok := p.Type.(*ast.Ellipsis); ok && i == len(fd.Type.Params.List)-1 {
+							variadicLast = true
+						}
+					}
+					call := t.to + "(" + strings.Join(args, ", ")
+					if variadicLast {
+						call += "..."
+					}
+					call += ")"
+					if fd.Type.Results != nil && len(fd.Type.Results.List) > 0 {
+						call = "return " + call
+					}
+					fmt.Fprintf(&extra, "\n%s{\n\t%s\n}\n", sig, call)
+				}
+			}
+			if len(edits) == 0 {
+				continue
+			}
+			sort.Slice(edits, func(i, j int) bool { return edits[i].pos > edits[j].pos })
+			b := append([]byte(nil), src...)
+			for _, e := range edits {
+				b = append(b[:e.pos], append([]byte(e.text), b[e.pos:]...)...)
+			}
+			b = append(b, []byte(extra.String())...)
+			out[f] = b
+		}
+	}
+	return out
 }
